@@ -79,6 +79,7 @@ func (e *Exec) envFor(rets []Term) *exprEnv {
 	}
 	for i, p := range e.fn.Params {
 		env.vars[p.Name()] = typedTerm{t: e.params[i], typ: p.Type()}
+		env.args = append(env.args, typedTerm{t: e.params[i], typ: p.Type()})
 	}
 	sig := e.fn.Signature
 	for i, r := range rets {
